@@ -158,7 +158,8 @@ Definition pristine (x : dev) : bool :=
   (match d_buf x with [] => true | _ => false end) && (d_level x =? 0) &&
   (match d_vhist x with [] => true | _ => false end) && (d_value x =? 0) && (d_cost_produced x =? 0) && (d_value_received x =? 0) &&
   (match d_batch_size x with None => true | Some n => 1 <=? n end) &&
-  (match d_capacity x with None => true | Some c => 0 <=? c end).
+  (match d_capacity x with None => true | Some c => 0 <=? c end) &&
+  (match d_budget x with None => true | Some b => d_produced x <=? b end).
 
 Fixpoint nodupb (l : list Z) : bool :=
   match l with [] => true | x :: l' => negb (existsb (Z.eqb x) l') && nodupb l' end.
